@@ -32,6 +32,7 @@
 #include "../common/dense.hpp"
 #include "../common/amgcl_util.hpp"
 #include "c13_common.hpp"
+#include <functional>
 
 using namespace vf;
 using namespace c13;
@@ -200,6 +201,7 @@ static void prop_solve(Tape &t, Ctx &c) {
            << " contrast=" << bc.contrast << " rhs=" << fk << " coarse_enough=" << ce << " tol=" << tol << " A=" << dump_small(A, 8);
     c.nontrivial = bc.incomplete > 0 && bc.nb >= 2;
     c.label("kind=" + std::to_string(bc.kind)); c.label("fam:" + bc.family); c.label(size_bucket(bc.nb)); c.label("ce=" + std::to_string(ce));
+    c.label(bc.model() ? "model" : "non-model(truthfulness only)");
     c.label(bc.incomplete ? "incomplete-block" : "all-blocks-full");
 
     size_t n = static_cast<size_t>(A.n), nb = static_cast<size_t>(bc.nb);
@@ -207,22 +209,34 @@ static void prop_solve(Tape &t, Ctx &c) {
     auto Ab = amgcl::adapter::block_matrix<blk>(As);
     size_t iters; double resid;
     size_t levels_seen = 0;
+    // Convergence to the tolerance is demanded on the model kinds (M-matrix like, kappa small); for kind 3 (entries of both
+    // signs, no smooth near-null space) only the truthfulness of whatever residual is reported, and a Krylov breakdown
+    // ("Zero rho/omega in BiCGStab") is a clean, allowed outcome there.
+    const bool conv = bc.model();
+    auto guarded = [&](const char *name, const std::function<void()> &body) {
+        try { body(); }
+        catch (const std::runtime_error &e) {
+            std::string w = e.what();
+            if (!conv && dynamic_cast<const vf::Fail *>(&e) == nullptr && w.find("BiCGStab") != std::string::npos) { c.label(std::string("breakdown:") + name); return; }
+            throw;
+        }
+    };
 
-    {   // 1. block value type through the adapter, called as tutorial/2.Serena does: solve(Ab, F, X)
+    guarded("adapter", [&]() {   // 1. block value type through the adapter, called as tutorial/2.Serena does: solve(Ab, F, X)
         typedef amgcl::make_solver<AmgBlock, amgcl::solver::cg<BB>> Solver;
         Solver::params p; set_common<Solver>(p, tol, maxiter, ce);
         Solver solve(Ab, p);
         std::vector<double> x(n, 0.0);
         auto F = ab::reinterpret_as_rhs<blk>(f); auto X = ab::reinterpret_as_rhs<blk>(x);
         std::tie(iters, resid) = solve(Ab, F, X);
-        require_truthful(c, "block_matrix+amg<block>+cg", A, f, x, iters, resid, tol, maxiter);
+        require_truthful(c, "block_matrix+amg<block>+cg", A, f, x, iters, resid, tol, maxiter, conv);
         // the level-0 matrix of the hierarchy is the same operator
         require_block_entries(solve.system_matrix(), ScalarView(A), "amg<block>::system_matrix", true);
         std::ostringstream os; os << solve.precond(); std::string s = os.str();
         size_t pos = s.find("Number of levels:"); if (pos != std::string::npos) levels_seen = static_cast<size_t>(std::atoi(s.c_str() + pos + 17));
         c.label("levels=" + std::to_string(std::min<size_t>(levels_seen, 4)));
-    }
-    {   // 2. user-assembled block values (block-valued tuple), two-argument call
+    });
+    guarded("tuple", [&]() {   // 2. user-assembled block values (block-valued tuple), two-argument call
         ab::crs<blk> Bc(Ab);
         Csr<blk> Bt = from_crs(Bc);
         auto At = std::tie(nb, Bt.ptr, Bt.col, Bt.val);
@@ -231,21 +245,21 @@ static void prop_solve(Tape &t, Ctx &c) {
         Solver solve(At, p);
         std::vector<rhsb> F = blocked(f), X(nb, amgcl::math::zero<rhsb>());
         std::tie(iters, resid) = solve(F, X);
-        require_truthful(c, "block tuple+amg<block>+bicgstab", A, f, flat(X), iters, resid, tol, maxiter);
-    }
-    {   // 3. make_block_solver: scalar matrix and scalar vectors in, block solver inside
+        require_truthful(c, "block tuple+amg<block>+bicgstab", A, f, flat(X), iters, resid, tol, maxiter, conv);
+    });
+    guarded("make_block_solver", [&]() {   // 3. make_block_solver: scalar matrix and scalar vectors in, block solver inside
         typedef amgcl::make_block_solver<AmgBlock, amgcl::solver::bicgstab<BB>> Solver;
         Solver::params p; p.solver.tol = tol; p.solver.maxiter = maxiter; p.precond.coarse_enough = static_cast<unsigned>(ce);
         Solver solve(As, p);
         std::vector<double> x(n, 0.0);
         std::tie(iters, resid) = solve(f, x);
-        require_truthful(c, "make_block_solver", A, f, x, iters, resid, tol, maxiter);
+        require_truthful(c, "make_block_solver", A, f, x, iters, resid, tol, maxiter, conv);
         // three-argument form with the block adapter as the system matrix
         std::vector<double> x2(n, 0.0);
         std::tie(iters, resid) = solve(Ab, f, x2);
-        require_truthful(c, "make_block_solver(A,f,x)", A, f, x2, iters, resid, tol, maxiter);
-    }
-    {   // 4. coarsening::as_scalar (tutorial/5.Nullspace/nullspace_block.cpp): scalar coarsening of a block matrix
+        require_truthful(c, "make_block_solver(A,f,x)", A, f, x2, iters, resid, tol, maxiter, conv);
+    });
+    guarded("as_scalar", [&]() {   // 4. coarsening::as_scalar (tutorial/5.Nullspace/nullspace_block.cpp): scalar coarsening of a block matrix
         typedef amgcl::make_solver<AmgAsScalar, amgcl::solver::bicgstab<BB>> Solver;
         Solver::params p; set_common<Solver>(p, tol, maxiter, ce);
         p.precond.coarsening.aggr.block_size = B; // transfer operators must be convertible back to B x B blocks
@@ -253,36 +267,36 @@ static void prop_solve(Tape &t, Ctx &c) {
         std::vector<double> x(n, 0.0);
         auto F = ab::reinterpret_as_rhs<blk>(f); auto X = ab::reinterpret_as_rhs<blk>(x);
         std::tie(iters, resid) = solve(Ab, F, X);
-        require_truthful(c, "as_scalar<SA>+ilu0", A, f, x, iters, resid, tol, maxiter);
-    }
-    {   // 5. hybrid backend (tutorial/5.Nullspace/nullspace_hybrid.cpp): scalar setup, block storage; solve(A, rhs, x)
+        require_truthful(c, "as_scalar<SA>+ilu0", A, f, x, iters, resid, tol, maxiter, conv);
+    });
+    guarded("hybrid", [&]() {   // 5. hybrid backend (tutorial/5.Nullspace/nullspace_hybrid.cpp): scalar setup, block storage; solve(A, rhs, x)
         typedef amgcl::make_solver<AmgHybrid, amgcl::solver::cg<HB>> Solver;
         Solver::params p; set_common<Solver>(p, tol, maxiter, ce * B);
         p.precond.coarsening.aggr.block_size = B;
         Solver solve(As, p);
         std::vector<double> x(n, 0.0);
         std::tie(iters, resid) = solve(As, f, x);
-        require_truthful(c, "builtin_hybrid+spai0+cg", A, f, x, iters, resid, tol, maxiter);
+        require_truthful(c, "builtin_hybrid+spai0+cg", A, f, x, iters, resid, tol, maxiter, conv);
         require_block_entries(solve.system_matrix(), ScalarView(A), "amg<builtin_hybrid>::system_matrix", true);
         std::vector<double> x2(n, 0.0);
         std::tie(iters, resid) = solve(f, x2);  // iterates on the block copy held by the preconditioner
-        require_truthful(c, "builtin_hybrid+spai0+cg(f,x)", A, f, x2, iters, resid, tol, maxiter);
-    }
-    {   // 6. relaxation::as_block: block ILU(0) as smoother inside the hybrid hierarchy
+        require_truthful(c, "builtin_hybrid+spai0+cg(f,x)", A, f, x2, iters, resid, tol, maxiter, conv);
+    });
+    guarded("as_block", [&]() {   // 6. relaxation::as_block: block ILU(0) as smoother inside the hybrid hierarchy
         typedef amgcl::make_solver<AmgAsBlock, amgcl::solver::bicgstab<HB>> Solver;
         Solver::params p; set_common<Solver>(p, tol, maxiter, ce * B);
         p.precond.coarsening.aggr.block_size = B;
         Solver solve(As, p);
         std::vector<double> x(n, 0.0);
         std::tie(iters, resid) = solve(As, f, x);
-        require_truthful(c, "builtin_hybrid+as_block<ilu0>", A, f, x, iters, resid, tol, maxiter);
-    }
+        require_truthful(c, "builtin_hybrid+as_block<ilu0>", A, f, x, iters, resid, tol, maxiter, conv);
+    });
 }
 
 static std::vector<Prop> props() {
     return {
-        Prop("representation", prop_representation, 500, 6000, 100, 60, {1, 4}, 1, 4),
-        Prop("solve", prop_solve, 250, 4000, 100, 100, {1, 4}, 2, 8),
+        Prop("representation", prop_representation, 500, 6000, 100, 60, {1}, 2, 4),
+        Prop("solve", prop_solve, 300, 4000, 100, 100, {1}, 3, 8),
     };
 }
 static std::vector<Enum> enums() { return {}; }
